@@ -222,7 +222,7 @@ INHERIT_SHAPES = {
 }
 
 
-def _render_chain(templates, limit, use_async):
+def _render_chain(templates, limit, use_async, data=None):
     from liquid import DictLoader, Environment
     import liquid.extra as ex
 
@@ -232,7 +232,8 @@ def _render_chain(templates, limit, use_async):
     ex.add_tags(env)
     try:
         t = env.get_template("main")
-        return ("out", (run_async(t.render_async()) if use_async else t.render()).count("x"))
+        data = data or {}
+        return ("out", (run_async(t.render_async(**data)) if use_async else t.render(**data)).count("x"))
     except Exception as e:  # noqa: BLE001
         return ("err", L.classify(e))
 
@@ -251,6 +252,51 @@ def judge_chain(lengths, limit, s, a):
     if not over and s != ("out", prod):
         return "c06-inherit-within-limit", f"lengths {lengths} multiply to {prod} <= limit {limit} but the render gave {s}"
     return None
+
+
+def cols_family(ck: Check) -> None:
+    """tablerow with an explicit cols argument (smaller than, equal to, larger than the number of items; 0; nil): the tablerow
+    contributes the number of ITEMS it repeats its block for, whatever the table layout is (oracle only: cols is outside the
+    model's nests).  Inner constructs: for, include-for, render-for; also nested inside a for."""
+    inner = {
+        "for": lambda m: ("{% for j in (1.." + str(m) + ") %}x{% endfor %}", {}),
+        "includefor": lambda m: ("{% include 'p' for arr %}", {"p": "x"}),
+        "renderfor": lambda m: ("{% render 'p' for arr %}", {"p": "x"}),
+    }
+    for kind, mk in inner.items():
+        for length in (2, 3, 6):
+            for m in (2, 3, 6):
+                for cols in ("1", "2", str(length), str(length + 2), "0", "nil", "nosuch"):
+                    for outer in (None, 2):
+                        body, parts = mk(m)
+                        src = "{% tablerow i in (1.." + str(length) + ") cols: " + cols + " %}" + body + "{% endtablerow %}"
+                        lengths = [length, m]
+                        if outer:
+                            src = "{% for o in (1.." + str(outer) + ") %}" + src + "{% endfor %}"
+                            lengths = [outer] + lengths
+                        prod = 1
+                        for n in lengths:
+                            prod *= n
+                        templates = dict(parts, main=src)
+                        for limit in sorted({prod - 1, prod}):
+                            res = []
+                            for use_async in (False, True):
+                                from liquid import DictLoader, Environment
+                                from ..core import run_async
+                                env = type("VerifEnv", (Environment,), {"loop_iteration_limit": limit})(loader=DictLoader(templates))
+                                try:
+                                    t = env.get_template("main")
+                                    o = run_async(t.render_async(arr=list(range(m)))) if use_async else t.render(arr=list(range(m)))
+                                    res.append(("out", o.count("x")))
+                                except Exception as e:  # noqa: BLE001
+                                    res.append(("err", L.classify(e)))
+                            ck.note_case(("cols", kind, length, m, cols, outer, limit), nontrivial=True)
+                            ck.count("cols." + ("raised" if res[0][0] == "err" else "completed"))
+                            v = judge_chain(lengths, limit, res[0], res[1])
+                            if v is not None and sum(1 for y in ck.violations if y.signature.startswith("c06-tablerow-cols")) < 3:
+                                ck.violation("impl-violation", f"c06-tablerow-cols:{v[0]}:{kind}", f"{templates!r} limit {limit}: {v[1]}",
+                                             {"kind": "inherit", "templates": templates, "lengths": lengths, "limit": limit,
+                                              "sync": res[0], "async": res[1], "data": {"arr": list(range(m))}})
 
 
 def inheritance_family(ck: Check) -> None:
@@ -298,6 +344,7 @@ def run(ck: Check) -> None:
     ]
     ck.proof()
     inheritance_family(ck)
+    cols_family(ck)
 
     sw = L.Sweeps()
     nolim = L.Limits()
@@ -371,7 +418,8 @@ def run(ck: Check) -> None:
 def replay(data) -> int:
     case = data["case"]
     if case.get("kind") == "inherit":
-        s_, a_ = _render_chain(case["templates"], case["limit"], False), _render_chain(case["templates"], case["limit"], True)
+        s_, a_ = (_render_chain(case["templates"], case["limit"], False, case.get("data")),
+                  _render_chain(case["templates"], case["limit"], True, case.get("data")))
         print("templates:", case["templates"], "loop_iteration_limit:", case["limit"], "enclosing lengths:", case["lengths"])
         print("sync :", s_, "async:", a_)
         v = judge_chain(case["lengths"], case["limit"], s_, a_)
